@@ -78,6 +78,11 @@ type Letter struct {
 	St    stamp
 	Entry int   // index into Entries
 	Batch []int // operate: several entries in one request (overrides Entry)
+	// Other: the last operation of the batch carries this stamp instead of St (a request that mixes a correctly
+	// stamped operation with a badly stamped one); OtherFirst puts that operation first instead.
+	Other      *stamp
+	OtherID    ID
+	OtherFirst bool
 }
 
 // EntryT is an operation template.
@@ -360,16 +365,33 @@ func (in *inst) operate(l Letter, s *sess, check bool) []mc.Fail {
 		idxs = []int{l.Entry}
 	}
 	var ops []*spb.AFTOperation
-	for _, ei := range idxs {
+	var auth []bool
+	okStamp := func(st *spb.Uint128) bool {
+		return in.prim == l.S && s.last != nil && st != nil && (ID{st.High, st.Low}) == *s.last && in.max != nil && *s.last == *in.max
+	}
+	for i, ei := range idxs {
 		e := Entries[ei]
 		s.nextOp++
 		op := ribx.Op(s.nextOp, e.NI, e.Op, proto.Clone(e.E))
 		op.ElectionId = st
+		if l.Other != nil && ((l.OtherFirst && i == 0) || (!l.OtherFirst && i == len(idxs)-1)) {
+			switch *l.Other {
+			case stNil:
+				op.ElectionId = nil
+			case stAbs:
+				op.ElectionId = l.OtherID.Proto()
+			}
+		}
+		auth = append(auth, okStamp(op.ElectionId))
 		s.sent[op.Id] = op
 		in.allOps[fmt.Sprintf("%s/%d", s.sid, op.Id)] = op
 		ops = append(ops, op)
 	}
-	authorised := in.prim == l.S && s.last != nil && st != nil && (ID{st.High, st.Low}) == *s.last && in.max != nil && *s.last == *in.max
+	authorised, noneAuthorised := true, true
+	for _, a := range auth {
+		authorised = authorised && a
+		noneAuthorised = noneAuthorised && !a
+	}
 	before := in.snapshot()
 	heldBefore := map[uint64]*spb.AFTOperation{}
 	for _, p := range in.srv.VerifRIB().VerifPending() {
@@ -433,15 +455,18 @@ func (in *inst) operate(l Letter, s *sess, check bool) []mc.Fail {
 	after := in.snapshot()
 	if !authorised {
 		if in.o.Checks.Primary && check {
-			if after != before {
+			if noneAuthorised && after != before {
 				bad("C04/unauthorised-operation-changed-state/"+diffSnap(before, after), "%s by session %d (primary=%d, stamp=%v, last=%v, max=%v) changed server state: %+v -> %+v", l.Name, l.S, in.prim, fromProto(st), s.last, in.max, before, after)
 			}
-			for _, op := range ops {
+			for i, op := range ops {
+				if auth[i] {
+					continue // (a correctly stamped operation of the primary in the same request)
+				}
 				nFailed := 0
 				for _, r := range results {
 					if r.id == op.Id {
 						if r.st != spb.AFTResult_FAILED {
-							bad("C04/unauthorised-operation-acknowledged", "%s by session %d (primary=%d, stamp=%v, last=%v, max=%v) was answered %s", l.Name, l.S, in.prim, fromProto(st), s.last, in.max, r.st)
+							bad("C04/unauthorised-operation-acknowledged", "%s by session %d (primary=%d, stamp=%v, last=%v, max=%v) was answered %s", l.Name, l.S, in.prim, fromProto(op.ElectionId), s.last, in.max, r.st)
 						}
 						nFailed++
 					}
@@ -640,6 +665,29 @@ func MakeLetters(n int, ids []ID, stamps []stamp, absIDs []ID, entries []string,
 				idx = append(idx, entryIdx(e))
 			}
 			ls = append(ls, Letter{Name: fmt.Sprintf("operate s%d %v stamp=own", s, b), K: kOperate, S: s, St: stOwn, Batch: idx})
+		}
+	}
+	return ls
+}
+
+// MixedLetters are requests of two operations of which one is stamped with the session's own id and the other one
+// is not (no id / an absolute id), in both orders.
+func MixedLetters(n int, abs ID) []Letter {
+	var ls []Letter
+	for s := 0; s < n; s++ {
+		for _, first := range []bool{false, true} {
+			for _, o := range []stamp{stNil, stAbs} {
+				o := o
+				names := []string{"ADD nh1 stamp=own", fmt.Sprintf("ADD nh2 stamp=%s", map[stamp]string{stNil: "none", stAbs: abs.String()}[o])}
+				if first {
+					names[0], names[1] = names[1], names[0]
+				}
+				b := []int{entryIdx("ADD nh1"), entryIdx("ADD nh2")}
+				if first {
+					b[0], b[1] = b[1], b[0]
+				}
+				ls = append(ls, Letter{Name: fmt.Sprintf("operate s%d %v", s, names), K: kOperate, S: s, St: stOwn, Batch: b, Other: &o, OtherID: abs, OtherFirst: first})
+			}
 		}
 	}
 	return ls
